@@ -4,6 +4,9 @@
 (* sequence of levels, outermost first; level kinds:                       *)
 (*   1 plain function  2 lambda  3 method  4 nested function               *)
 (*   5 function compiled by exec (no source available)  6 recursion x2     *)
+(*   7 function compiled by exec INSIDE the module's own namespace (as     *)
+(*     dataclasses / namedtuple do): no source either, although the        *)
+(*     module it lives in has a file                                       *)
 (* and the kind of exception raised at the bottom.  Frames(p): the frames  *)
 (* the traceback must list - <<function name class, has source>> - in      *)
 (* order, after the driver's own frame.                                    *)
@@ -12,6 +15,6 @@ EXTENDS Naturals, Integers, Sequences
 RECURSIVE Frames(_)
 Frames(p) == IF p = <<>> THEN <<>>
              ELSE LET k == Head(p) IN
-                  (IF k = 6 THEN << <<6, TRUE>>, <<6, TRUE>> >> ELSE << <<k, k # 5>> >>) \o Frames(Tail(p))
+                  (IF k = 6 THEN << <<6, TRUE>>, <<6, TRUE>> >> ELSE << <<k, k \notin {5, 7}>> >>) \o Frames(Tail(p))
 NFrames(p) == Len(Frames(p))
 =============================================================================
